@@ -149,4 +149,12 @@ def doExchange (k : ClientKind) (fl : Flusher) (hooks : Bool) (reqBytes : Bytes)
     | .rtu, _, .err e => (.err (.parse e), log)
     | .rtu, _, .panic => (.panic, log)
 
+/-- `Do` with a context that is already cancelled when the call is made: the request is still written (the write does
+not look at the context), then the read loop finds the context done before its first read. No read, no flush. -/
+def doExchangeCancelled (k : ClientKind) (fl : Flusher) (hooks : Bool) (reqBytes : Bytes) (writeFails : Bool) :
+    DoOut × List HookEv :=
+  let log0 := if hooks then [HookEv.beforeWrite reqBytes] else []
+  if writeFails then (.err (match withFlush k fl (.err .write) with | .err e => e | _ => .write), log0)
+  else (.err .ctx, log0)
+
 end Modbus.Model
